@@ -19,6 +19,7 @@
  */
 
 #define __STDC_LIMIT_MACROS  // for UINT8_MAX & friends
+#include <ctype.h>
 #include <errno.h>
 #include <stdint.h>
 #include <stdlib.h>
@@ -156,17 +157,27 @@ bool StringToInt(const string &value, uint64_t *output, bool strict) {
   if (value.empty()) {
     return false;
   }
+  // strtoull() accepts a leading '-' and returns the negated value as an
+  // unsigned number, a negative number is never a valid unsigned value.
+  const char *first = value.data();
+  while (isspace(static_cast<unsigned char>(*first))) {
+    first++;
+  }
+  if (*first == '-') {
+    return false;
+  }
   char *end_ptr;
   errno = 0;
   unsigned long long l = strtoull(  // NOLINT(runtime/int)
       value.data(), &end_ptr, 10);
-  if (l == 0 && errno != 0) {
+  if (errno != 0) {
+    // This includes ERANGE, where strtoull returns ULLONG_MAX
     return false;
   }
-  if (value == end_ptr) {
+  if (end_ptr == value.data()) {
     return false;
   }
-  if (strict && *end_ptr != 0) {
+  if (strict && end_ptr != value.data() + value.size()) {
     return false;
   }
   if (l > static_cast<unsigned long long>(UINT64_MAX)) {  // NOLINT(runtime/int)
@@ -219,13 +230,14 @@ bool StringToInt(const string &value, int64_t *output, bool strict) {
   char *end_ptr;
   errno = 0;
   long long l = strtoll(value.data(), &end_ptr, 10);  // NOLINT(runtime/int)
-  if (l == 0 && errno != 0) {
+  if (errno != 0) {
+    // This includes ERANGE, where strtoll returns LLONG_MIN or LLONG_MAX
     return false;
   }
-  if (value == end_ptr) {
+  if (end_ptr == value.data()) {
     return false;
   }
-  if (strict && *end_ptr != 0) {
+  if (strict && end_ptr != value.data() + value.size()) {
     return false;
   }
   if (l < INT64_MIN || l > INT64_MAX) {
